@@ -174,6 +174,26 @@ def probe_source(crate, n, feats, fx):
         println!("OUT SEAL {{}}", key::<Local>("{fx["local_key"]}").seal(&pk).expect("seal"));
     }}
 '''
+    # the verdict corpus: valid, foreign-built and corrupted inputs with the full build's verdict
+    want = {"public": "verifying", "local": "decrypting", "pie": "pie-wrap", "pbkw": "pbkw", "seal": "pke"}
+    kind_feat = {"public": "verifying", "local": "decrypting", "pie": "pie-wrap", "pw": "pbkw", "seal": "pke"}
+    for i, e in enumerate(fx.get("corpus", [])):
+        if kind_feat[e["kind"]] not in f:
+            continue
+        t = e["text"].replace("\\", "\\\\").replace('"', '\\"')
+        if e["kind"] == "public":
+            body = f'"{t}".parse::<paseto_core::SignedToken<V, M, Vec<u8>>>().and_then(|t| t.verify(&key::<Public>("{fx["public_key"]}"), &NoValidation::dangerous_no_validation())).map(|u| u.claims.0)'
+        elif e["kind"] == "local":
+            body = f'"{t}".parse::<paseto_core::EncryptedToken<V, M, Vec<u8>>>().and_then(|t| t.decrypt(&key::<Local>("{fx["local_key"]}"), &NoValidation::dangerous_no_validation())).map(|u| u.claims.0)'
+        elif e["kind"] == "pie":
+            body = f'"{t}".parse::<paseto_core::paserk::PieWrappedKey<V, Local>>().and_then(|w| w.unwrap(&key::<Local>("{fx["wrapping_key"]}"))).map(|k| k.expose_key().as_raw_bytes().to_vec())'
+        elif e["kind"] == "pw":
+            body = f'"{t}".parse::<paseto_core::paserk::PasswordWrappedKey<V, Local>>().and_then(|w| w.unwrap(&hexd("{fx["password"]}"))).map(|k| k.expose_key().as_raw_bytes().to_vec())'
+        else:
+            body = f'"{t}".parse::<paseto_core::paserk::SealedKey<V>>().and_then(|w| w.unseal(&key::<PkeSecret>("{fx["pke_secret"]}"))).map(|k| k.expose_key().as_raw_bytes().to_vec())'
+        s += f'    match {body} {{ Ok(b) => println!("VERDICT {i} ok:{{}}", b.iter().map(|x| format!("{{x:02x}}")).collect::<String>()), Err(_) => println!("VERDICT {i} err") }}\n'
+    if any(kind_feat[e["kind"]] in f for e in fx.get("corpus", [])):
+        ops.append("verdict-corpus")
     s += '    println!("DONE");\n}\n'
     return s, ops
 
@@ -205,6 +225,12 @@ def run_probe(crate, n, feats, fx, fx_path, idx):
         for line in r.stdout.splitlines():
             if line.startswith("FAIL "):
                 res["fails"].append(line)
+            if line.startswith("VERDICT "):
+                _, idx, verdict = line.split(" ", 2)
+                e = fx["corpus"][int(idx)]
+                res["verdicts"] = res.get("verdicts", 0) + 1
+                if verdict != e["verdict"]:
+                    res["fails"].append(f"FAIL verdict-{e['kind']} the reduced build says {verdict[:24]} where the full build says {e['verdict'][:24]} for a {e['kind']} input ({e['how']}): {e['text'][:60]}")
         a = subprocess.run([PV, "c19-accept", fx_path], input=r.stdout, stdout=subprocess.PIPE, stderr=subprocess.PIPE, text=True, env=cargo_env())
         for line in a.stdout.splitlines():
             if line.startswith("REFUSE "):
@@ -411,7 +437,7 @@ def main():
             if c is None:
                 harness.append(f"{crate}: fixtures could not be produced: {r['stderr'][-200:]}"); continue
             probes += 1
-            evaluations += 1 + len(r["ops"])
+            evaluations += 1 + len(r["ops"]) + r.get("verdicts", 0)
             nontrivial.add((crate, c, "probe"))
             case = {"crate": crate, "features": sorted(gen), "kind": "probe"}
             label = "+".join(sorted(gen)) or "none"
@@ -429,7 +455,7 @@ def main():
     write_evidence("C19", tier, "exploration", {
         "evaluations": evaluations,
         "distinct_nontrivial": len(nontrivial),
-        "rule": "(1) every subset of the feature flags of paseto-v1/v2/v3/v4 collapsed to its distinct closure under the [features] implication graph read from Cargo.toml, each checked with cargo check --no-default-features --features <generators> (plus paseto-core +-serde, paseto-json +-claims): exhaustive over closures; (2) generated probe crates depending on the reduced build (quick: verify-only, decrypt-only, sign+encrypt (no PASERK), id+verify, id+decrypt, pie-wrap only, pbkw only, pke only and 2 seeded closures per crate; thorough: every non-empty closure) replay fixtures produced by the full build (tokens, PIE, PBKW, sealed key, ids for the run's seed) through every operation the closure offers and print what they produce; the full build and the reference model must accept it (deterministic signatures and ids byte-identical); (3) paseto-json: one probe program built against the crate with and without `claims` decodes and re-encodes a generated corpus of JSON texts (doubles of every magnitude in shortest / 18-digit / fixed / serde_json spelling, integer edge values, escapes, nesting, malformed texts) through Json<T> payload and footer: the two outputs must be identical line by line. Non-trivial iff the closure is neither empty nor full / a probe ran",
+        "rule": "(1) every subset of the feature flags of paseto-v1/v2/v3/v4 collapsed to its distinct closure under the [features] implication graph read from Cargo.toml, each checked with cargo check --no-default-features --features <generators> (plus paseto-core +-serde, paseto-json +-claims): exhaustive over closures; (2) generated probe crates depending on the reduced build (quick: verify-only, decrypt-only, sign+encrypt (no PASERK), id+verify, id+decrypt, pie-wrap only, pbkw only, pke only and 2 seeded closures per crate; thorough: every non-empty closure) replay fixtures produced by the full build (tokens, PIE, PBKW, sealed key, ids for the run's seed) through every operation the closure offers and print what they produce, and give their verdict on a corpus of valid, foreign-built (independent signers incl. high-S ECDSA, reference-model tokens and blobs) and corrupted inputs, which must equal the full build's verdict entry by entry; the full build and the reference model must accept it (deterministic signatures and ids byte-identical); (3) paseto-json: one probe program built against the crate with and without `claims` decodes and re-encodes a generated corpus of JSON texts (doubles of every magnitude in shortest / 18-digit / fixed / serde_json spelling, integer edge values, escapes, nesting, malformed texts) through Json<T> payload and footer: the two outputs must be identical line by line. Non-trivial iff the closure is neither empty nor full / a probe ran",
         "samples": samples or [{"note": "no probe ran"}],
         "closures_per_crate": per_crate,
         "probes_run": probes,
